@@ -49,10 +49,10 @@ DEFAULT_TIMEOUT = 240
 PROGRAMS = {
     "C02": ["clone_read_drop_2t", "clone_read_drop_3t", "clone_in_thread_then_drop", "thin_offset_union_2t",
             "thin_2t", "offset_2t", "union_2t", "borrow_clone_arc_2t", "handoff_chain_4t", "convert_under_sharing"],
-    "C03": ["poll_get_mut_write", "poll_is_unique_then_write", "thin_with_arc_mut_get_mut"],
+    "C03": ["poll_get_mut_write", "poll_is_unique_then_write", "thin_with_arc_mut_get_mut", "declining_try_unwrap_vs_gates"],
     "C08": ["make_mut_vs_readers", "offset_make_mut_vs_readers"],
     "C09": ["racing_try_unwrap_2t", "racing_try_unwrap_3t", "try_unwrap_vs_drop", "unwrap_or_clone_vs_drop",
-            "try_unique_vs_drop"],
+            "try_unique_vs_drop", "declining_try_unwrap_vs_gates"],
 }
 # programs of another property that exercise the same gate / hand-over and are worth running too
 ALSO = {
